@@ -41,6 +41,11 @@ CLAIMS = {
             'probed against values derived from the buffer layout, incl. the two words of the fixed metadata buffer for 8 offset pairs, 6 packet lengths '
             'and successive executions.',
             'lib.rs wrappers and JIT/Cranelift prologues are exercised differentially, not modelled.'),
+    'C10': ('proof', 'Theorem C10_refinement: the implementation state machine of the VM API (theories/VmApi.v, hand-written from lib.rs) answers every finite '
+            'history of calls exactly as the abstract VM in which compiled code is a function of the loaded program; corollaries: a failed set_program/'
+            'set_verifier is a no-op, the loaded program was accepted by the verifier in force, executions are pure. The model is tied to the code by '
+            'the history correspondence: every history of length <= 2 over a 16-op alphabet from 4 initial programs, plus random histories on all 4 VM kinds.',
+            'lib.rs is hand-modelled: the tie is the correspondence (tie B) only; programs/verifiers abstract in the theorem.'),
     'C17': ('proof', 'Theorems C17_* (props/C17.v) prove, for all field values and all program positions, that the encoders/decoder/builder serializer '
             'regenerated from src/ebpf.rs and src/insn_builder.rs equal the specified slot layout and that the layout is a bijection; the '
             'correspondence run ties model and spec to the real crate.', 'Builder constructors -> opcode byte is tied by exhaustive enumeration of constructors.'),
